@@ -113,6 +113,14 @@ impl CertificateSigningRequestParams {
 		let alg = SignatureAlgorithm::from_oid(&alg_oid)?;
 
 		let info = &csr.certification_request_info;
+		// The key type is inferred from the signature algorithm: make sure the embedded
+		// SubjectPublicKeyInfo really is a key of that type
+		let spki_alg = yasna::construct_der(|writer| alg.write_oids_sign_alg(writer));
+		let (rest, spki_alg) = x509_parser::x509::AlgorithmIdentifier::from_der(&spki_alg)
+			.map_err(|_| Error::UnsupportedSignatureAlgorithm)?;
+		if !rest.is_empty() || spki_alg != info.subject_pki.algorithm {
+			return Err(Error::UnsupportedSignatureAlgorithm);
+		}
 		let mut params = CertificateParams {
 			distinguished_name: DistinguishedName::from_name(&info.subject)?,
 			..CertificateParams::default()
